@@ -34,7 +34,7 @@ MODULES = {
     'C11': ['contracts.c11', 'contracts.pit_graph', 'contracts.whole_pit', 'contracts.whole_mps'],
     'C08': ['contracts.pit_layers', 'contracts.pit_graph', 'contracts.whole_pit'],
     'C01': ['contracts.pit_layers', 'contracts.pit_graph', 'contracts.whole_pit'],
-    'C04': ['contracts.pit_layers', 'contracts.wrappers', 'contracts.c15', 'contracts.pit_graph'],
+    'C04': ['contracts.pit_layers', 'contracts.wrappers', 'contracts.c15', 'contracts.pit_graph', 'contracts.whole_pit'],
     'C12': ['contracts.pit_layers', 'contracts.wrappers', 'contracts.c16', 'contracts.c13', 'contracts.c10'],
     'C05': ['contracts.mps_layers', 'contracts.wrappers', 'contracts.pit_graph', 'contracts.whole_mps'],
     'C02': ['contracts.mps_layers', 'contracts.whole_mps'],
@@ -51,8 +51,8 @@ EXTRACTION_DROPS = ['docstrings', 'type annotations', 'typing.cast (identity)', 
                     '.to()/.cpu()/.detach()/.float()/.contiguous() (identity on the value model; .clone()/deepcopy allocate)']
 TRUSTED_BASE = [
     'A-real: python floats / float32 tensor elements are mathematical reals, python ints are mathematical integers',
-    'library contracts in pyvc/tensor.py and pyvc/torchlib.py (torch operators, nn.Module bookkeeping, builtins, math, itertools) - '
-    'executable specifications, compared with the real libraries by the CPython cross-check of every harness',
+    'library contracts in pyvc/tensor.py, pyvc/torchlib.py and pyvc/fxtrace.py (torch operators, nn.Module bookkeeping, torch.fx tracing / GraphModule / ShapeProp / graph '
+    'mutators, networkx digraph operations, builtins, math, itertools) - executable specifications, compared with the real libraries by the CPython cross-check of every harness',
     'z3 4.x (python API 5.1.0) and /usr/bin/cvc5 1.0.3; python ast parser; the pyvc interpreter itself',
 ]
 
